@@ -7,7 +7,7 @@ mkdir -p "$V/bin" "$V/work" "$V/evidence"
 (cd "$V/engine/instr" && go build -o "$V/bin/instr" .)
 (cd "$V/engine/vrt" && go build ./...)
 # warm the cache: build every harness once against the current tree (errors here are reported by the checks)
-for d in "$V"/harness/cmd/*/; do
+for d in "$V"/harness/cmd/c[0-9][0-9]/; do   # (cNNb parts are built together with their check)
   id="$(basename "$d" | tr 'a-z' 'A-Z')"
   VERIF_BUILD_ONLY=1 "$V/check" "$id" quick >/dev/null 2>&1 || echo "setup: warm build of $id failed (the check will report it)"
 done
